@@ -901,6 +901,10 @@ func removeJobFromList(jobs []*PipelineJob, jobToRemove *PipelineJob) []*Pipelin
 func (r *PipelineRunner) determineIfJobShouldBeRemoved(index int, job *PipelineJob) (bool, string) {
 	pipelineDef, pipelineDefExists := r.defs.Pipelines[job.Pipeline]
 	if !pipelineDefExists {
+		if job.isRunning() {
+			// a running job still occupies its slot (the pipeline could be defined again), it is removed after it finished
+			return false, "Keeping running job of removed pipeline"
+		}
 		return true, "Pipeline definition not found"
 	}
 
